@@ -4,7 +4,8 @@
 (* cross-check of the generator against the recogniser.                    *)
 EXTENDS TomlDoc, TomlLex, TomlGen, Json
 
-CONSTANTS MaxPath, EMIT, RICH
+CONSTANTS MaxPath, EMIT, RICH,
+          UNIFORM   \* spell every key bare and every dot without spaces (repeated segments identical)
 
 KA == <<97>>
 KB == <<98>>
@@ -22,10 +23,10 @@ MCStmts == {[kind |-> kd, path |-> KP(p), val |-> Dummy] : kd \in {"std", "aot"}
            \cup {[kind |-> "kv", path |-> KP(p), val |-> v] : p \in Paths, v \in Vals}
 
 \* spelling choices are a function of the position so that every spelling meets every context
-Style(i, j) == (i + j) % 3
+Style(i, j) == IF UNIFORM THEN 0 ELSE (i + j) % 3
 PlainPath(s) == [j \in 1..Len(s.path) |-> s.path[j].s]
 StmtText(s, i) ==
-  LET dot == IF i % 2 = 0 THEN <<32, 46, 32>> ELSE <<46>>
+  LET dot == IF i % 2 = 0 /\ ~UNIFORM THEN <<32, 46, 32>> ELSE <<46>>
       pt == PathText(PlainPath(s), [j \in 1..Len(s.path) |-> Style(i, j)], dot, 1)
   IN CASE s.kind = "std" -> <<91>> \o pt \o <<93>>
        [] s.kind = "aot" -> <<91, 91>> \o pt \o <<93, 93>>
